@@ -28,7 +28,7 @@ MAXTASKS = 1
 def plan(tier, seed):
     names = sani.group_names(tier)
     shards = [("asan", g, tier) for g in names] + [("diff", g, tier) for g in names] + [("stray", g, tier) for g in names] + \
-        [("team", g, tier) for g in names] + [("wrapper", g, tier) for g in names]
+        [("team", g, tier) for g in names] + [("wrapper", g, tier) for g in names] + [("sched", g, tier) for g in names]
     k = seed % len(shards)
     return shards[k:] + shards[:k]
 
@@ -213,6 +213,44 @@ def _run_team(desc):
     return sh
 
 
+def _run_sched(desc):
+    """the kernels with OpenMP regions, every schedule of teams of 2 and 3 threads within one preemption (thorough: two) at the words more
+    than one thread touches (vrt runtime): whatever the interleaving, the call writes what a single thread writes - a read of a word
+    another thread of the team is writing shows up as an outcome that depends on the schedule"""
+    _, group, tier = desc
+    from vt.vrt import VRT, schedule_outcomes
+    sh = Shard()
+    sani.NP_["NPROPERTY"], sani.NP_["NPROPERTY2D"] = nprops()
+    V = VRT()
+    seen, execs, capped = {}, 0, 0
+    for idx, call in enumerate(sani.calls_of(group, tier)):
+        k = call.kernel
+        if seen.get(k, 0) >= (6 if tier == "quick" else 40) or any(a[0] == "a" and a[1].nbytes > 1200 for a in call.args):
+            continue
+        r = schedule_outcomes(V, call, threads=(2, 3), bound=1 if tier == "quick" else 2, max_exec=3000 if tier == "quick" else 100000,
+                              budget_s=4.0 if tier == "quick" else 15.0, same=same_loose)
+        if r is None:
+            continue
+        bad, st = r
+        if st["regions"] == 0:
+            continue
+        seen[k] = seen.get(k, 0) + 1
+        execs += st["executions"]
+        capped += bool(st["capped"])
+        case = {"kind": "sched", "group": group, "tier": tier, "index": idx, "call": call.describe()[:300]}
+        if bad:
+            sh.violation("outcome-depends-on-the-thread-schedule:%s" % k, dict(case, team=bad[0][0], schedule=[int(x) for x in bad[0][1]]),
+                         {"schedules_with_another_outcome": len(bad)})
+        sh.evaluations += 1
+        sh.nontrivial += 1
+        sh.states += st["executions"]
+        sh.outcomes.add(("sched", k))
+    sh.count("schedules_executed", execs)
+    sh.count("calls_capped_by_budget", capped)
+    sh.sample({"monitor": "all schedules within the preemption bound (vrt)", "group": group, "kernels": sorted(seen)}, limit=1)
+    return sh
+
+
 WRAPPED = ("array_histogram", "bgcalc", "frelon_lines", "frelon_lines_sub", "blob_moments", "clean_mask", "localmaxlabel", "make_clean_mask",
            "mask_to_coo")
 
@@ -287,7 +325,7 @@ def _run_wrapper(desc):
 
 
 def run_shard(desc):
-    return {"asan": _run_asan, "diff": _run_diff, "stray": _run_stray, "team": _run_team, "wrapper": _run_wrapper}[desc[0]](desc)
+    return {"asan": _run_asan, "diff": _run_diff, "stray": _run_stray, "team": _run_team, "wrapper": _run_wrapper, "sched": _run_sched}[desc[0]](desc)
 
 
 def replay(case):
